@@ -205,6 +205,30 @@ pub fn run(tier: Tier, seed: u64) -> i32 {
     }
     keys.push((n.add(&n).rem(&two256).to_le_padded::<32>(), "2N mod 2^256"));
     keys.push(([0xFF; 32], "2^256-1"));
+    // keys as FAR from N (and from 0) as possible: a comparison that counts differing bits or bytes in a narrow integer
+    // overflows on them - the complement of N, the complement in all but one byte / bit, N with every other byte complemented
+    {
+        let not_n = N_LE.map(|b| !b);
+        keys.push((not_n, "complement of N"));
+        for i in [0usize, 1, 15, 16, 31] {
+            let mut k = not_n;
+            k[i] = N_LE[i];
+            keys.push((k, "complement of N except one byte"));
+            let mut k = not_n;
+            k[i] ^= 1;
+            keys.push((k, "complement of N except one bit"));
+            let mut z = [0xFFu8; 32];
+            z[i] ^= 0x80;
+            keys.push((z, "all ones except one bit"));
+        }
+        let mut alt = N_LE;
+        for (i, b) in alt.iter_mut().enumerate() {
+            if i % 2 == 0 {
+                *b = !*b;
+            }
+        }
+        keys.push((alt, "N with every other byte complemented"));
+    }
     for pk in private_keys(seed, true) {
         keys.push((pk, "pk-alphabet"));
     }
@@ -313,24 +337,49 @@ pub fn run(tier: Tier, seed: u64) -> i32 {
             NOT_OWNED.fetch_add(1, Ordering::Relaxed);
             continue;
         }
-        let (r, used, _log) = with_script(&b_priv, move || {
+        // the script goes on with a second, ordinary private key: a library that refuses its own B = 0 by drawing AGAIN
+        // (instead of the documented panic) gets that one
+        let b_again = refmodel::ctr_array::<32>(seed, "c04-own-b-again").map(|x| x & 0x7F);
+        let mut script = b_priv.to_vec();
+        script.extend_from_slice(&b_again);
+        let a_probe = srp::client_public(&U::from_u64(77), 7, &n).to_le_padded::<32>();
+        let (r, used, log) = with_script(&script, move || {
             let p = ver.into_proof();
-            *p.server_public_key()
+            let bp = *p.server_public_key();
+            (bp, p)
         });
         own_b += 1;
         let is_zero = tt.is_zero();
-        match r {
-            Ok(bpub) => {
+        match r.map(|(bp, p)| (bp, Some(p))) {
+            Ok((bpub, proof)) => {
                 if used < 32 {
                     mc::util::machinery_error(&format!("C04: into_proof consumed {used} scripted bytes, expected at least 32"));
                 }
                 if is_zero {
-                    report.violation(Violation {
-                        signature: "C04|server-own-B|zero-key-handed-out".into(),
-                        scenario: "SrpVerifier::into_proof".into(),
-                        replay: json!({"target_B": hex(t), "verifier": hex(&v.to_le_padded::<32>()), "b": hex(&b_priv)}),
-                        detail: json!({"message": format!("server generated B = {} (congruent 0 mod N) and handed it out", hex(&bpub))}),
-                    });
+                    // B = 0 must not be handed out. Accepted outcomes: the documented panic (below), or a key re-drawn from the
+                    // next RNG answer - then everything the server goes on to compute must belong to THAT private key
+                    let redrawn = log.len() >= 2 && log[1].bytes == b_again;
+                    let want_b2 = srp::server_public(&v, &U::from_le_bytes(&b_again), 7, &n);
+                    let mut consistent = false;
+                    if redrawn && !want_b2.is_zero() && bpub == want_b2.to_le_padded::<32>() {
+                        // the M1 an honest peer would send for (v, b_again, A): the server must accept it
+                        let u = U::from_le_bytes(&srp::u_bytes(&a_probe, &bpub));
+                        let s = srp::server_s(&U::from_le_bytes(&a_probe), &v, &u, &U::from_le_bytes(&b_again), &n).to_le_padded::<32>();
+                        if let (Some(k), Ok(ak), Some(p)) = (srp::interleave(&s), PublicKey::from_le_bytes(a_probe), proof) {
+                            let m1 = srp::m1(b"A", &[0u8; 32], &a_probe, &bpub, &k, 7, &srp::n_builtin_le());
+                            consistent = matches!(mc::util::catch(move || p.into_server(ak, m1).is_ok()), Ok(true));
+                        }
+                    }
+                    if !consistent {
+                        report.violation(Violation {
+                            signature: "C04|server-own-B|zero-key-handed-out".into(),
+                            scenario: "SrpVerifier::into_proof".into(),
+                            replay: json!({"target_B": hex(t), "verifier": hex(&v.to_le_padded::<32>()), "b": hex(&b_priv), "next_rng_answer": hex(&b_again)}),
+                            detail: json!({"message": format!("for a verifier / private key pair whose B is congruent 0 mod N the server neither refused nor consistently re-drew its key: it handed out B = {} (re-drawn key would give {}; draws seen: {})", hex(&bpub), want_b2.to_hex_be(), log.len())}),
+                        });
+                    } else {
+                        refused.fetch_add(1, Ordering::Relaxed);
+                    }
                 } else if bpub != tt.to_le_padded::<32>() {
                     report.violation(Violation {
                         signature: "C04|server-own-B|wrong-value".into(),
